@@ -177,6 +177,9 @@ class OpacityCache(Singleton):
         """
         GlobalCache()['xsec_interpolation'] = interpolation_mode
         self.clear_cache()
+        # k-tables are built with the same setting; drop those loaded with the old one
+        from .ktablecache import KTableCache
+        KTableCache().clear_cache()
     
     
 
